@@ -126,6 +126,22 @@ pub fn run() -> Report {
                 plain_world.extra.push(Extra::File("XOR.DAT".into(), other));
                 acc.count("other-key-files-within-reach", 1);
             }
+            // every fifth case: some blk files live in another directory and are linked back (older files moved to a second
+            // disk); the key file stays where it is and says how every blk file of THIS directory is stored
+            if i % 5 == 2 {
+                let nos: Vec<u64> = plain_world.files.keys().cloned().collect();
+                for (k, n) in nos.iter().enumerate() {
+                    let pick = match (i / 5) % 3 {
+                        0 => k == 0,
+                        1 => k + 1 == nos.len(),
+                        _ => true,
+                    };
+                    if pick {
+                        plain_world.extra.push(refmodel::world::Extra::Archived(*n));
+                    }
+                }
+                acc.count("blk-files-linked-from-another-directory", 1);
+            }
             let mut xor_world = plain_world.clone();
             xor_world.xor_key = Some(c.key.clone());
             acc.states += 1;
